@@ -1,0 +1,23 @@
+//go:build verif
+
+package croncontroller
+
+import (
+	"k8s.io/client-go/util/workqueue"
+
+	"github.com/furiko-io/furiko/pkg/execution/util/cronschedule"
+)
+
+// VerifSetQueue injects a deterministic workqueue (verification harness in /verif).
+func (c *Context) VerifSetQueue(q workqueue.RateLimitingInterface) { c.queue = q }
+
+// VerifUpdatedConfigsLen returns the number of JobConfigs waiting to be flushed.
+func (c *Context) VerifUpdatedConfigsLen() int { return len(c.updatedConfigs) }
+
+// VerifSchedule returns the worker's schedule (nil before Init).
+func (w *CronWorker) VerifSchedule() *cronschedule.Schedule { return w.schedule }
+
+// VerifNewEnqueueHandler returns the production EnqueueHandler.
+func VerifNewEnqueueHandler(ctrlContext *Context) EnqueueHandler {
+	return newEnqueueHandler(ctrlContext)
+}
